@@ -381,7 +381,21 @@ def server_close(ctx, ex, prog, viol):
                            group='server Connection.Close: CloseOk queued last, buffer sealed, every channel and consumer told ServerClosedConnection(code,text), slots drained',
                            sample={'collector': shape, 'consumers': nc})
             if m is not None:
-                report_io(ctx, prog, 'server-close', f"server Connection.Close with collector {shape}, {nc} consumers breaks the claim", s, w, [err_name(prog, rv)], s.pc, z3.And(*conds), [fs], shape=shape, infoA=infoA)
+                def oracle(obs):
+                    from ioreplay import parse_obs, obs_list
+                    d = parse_obs(obs)
+                    ok = d.get('state') == 'ServerClosing' and d.get('sealed') == 'true' and d.get('earlier') == 'kept' and re.match(r'^\[M0:Connection\.CloseOk\]$', d.get('out', '')) is not None
+                    for nm_, f_ in d['slots'].items():
+                        if nm_ == 'ch0':
+                            continue
+                        rep = obs_list(f_['reply'])
+                        ok = ok and f_['present'] == 'false' and len(rep) == 2 and rep[0].startswith('Err(ServerClosedConnection') and rep[1] == 'closed'
+                        for k_, v_ in f_.items():
+                            if re.match(r'^c\d+$', k_):
+                                q = obs_list(v_)
+                                ok = ok and len(q) == 2 and q[0].startswith('ServerClosedConnection') and q[1] == 'closed'
+                    return ok
+                report_io(ctx, prog, 'server-close', f"server Connection.Close with collector {shape}, {nc} consumers breaks the claim", s, w, [err_name(prog, rv)], s.pc, z3.And(*conds), [fs], shape=shape, infoA=infoA, native_oracle=oracle)
                 continue
             if n <= ctx.q(2, 5):
                 VAL.add(s, w, [err_name(prog, rv)], s.pc, [fs], shape=shape, infoA=infoA, label=f"server-close/{shape}/{nc}")
